@@ -31,7 +31,6 @@ FORBIDDEN = re.compile(r"\b(Admitted|admit|Axiom|Axioms|Parameter|Parameters|Con
 ALLOWED_AXIOMS = {
     "ClassicalDedekindReals.sig_forall_dec", "ClassicalDedekindReals.sig_not_dec",
     "FunctionalExtensionality.functional_extensionality_dep", "Classical_Prop.classic",
-    "functional_extensionality_dep", "classic", "sig_forall_dec", "sig_not_dec",
     "Eqdep.Eq_rect_eq.eq_rect_eq", "JMeq.JMeq_eq", "ProofIrrelevance.proof_irrelevance",
     "PropExtensionality.propositional_extensionality",
 }
@@ -199,7 +198,7 @@ def print_assumptions(pid):
     bad = []
     for t, axs in res.items():
         for a in axs:
-            if a in ALLOWED_AXIOMS or a.startswith(ALLOWED_AXIOM_PREFIXES) or a.split(".")[-1] in ALLOWED_AXIOMS:
+            if a in ALLOWED_AXIOMS or a.startswith(ALLOWED_AXIOM_PREFIXES):
                 continue
             # primitive types/operations are reported too; they live in PrimFloat/PrimInt63/Uint63
             bad.append("%s depends on %s" % (t, a))
